@@ -159,8 +159,73 @@ def _conserving(g):
     return True
 
 
-def digraph_cyclic(rng, max_nodes=5, max_edges=6, max_routes=3, wmax=5, max_rep=2, float_w=False):
+def digraph_flower(rng, max_routes=3, wmax=5, max_rep=2, float_w=False, zero_petal_p=0.2, max_petals=2, max_edges=7):
+    """Backbone with a vertex carrying several edge-disjoint cycles ("petals": self-loop,
+    2-cycle, 3-cycle, a petal hanging off another petal); optionally a petal no route uses
+    (zero flow).  Flow = superposition of walks that traverse the petals."""
+    pool = names(rng, 10)
+    s, v, t = pool.pop(), pool.pop(), pool.pop()
+    order = [(s, v), (v, t)]
+    back = [s, v, t]
+    if rng.random() < 0.3:
+        m = pool.pop()
+        order = [(s, v), (v, m), (m, t)]
+        back = [s, v, m, t]
+    petals = []
+    for _ in range(rng.randint(2, max_petals)):
+        kind = rng.choice(["loop", "two", "two", "three", "nested"])
+        if len(order) + {"loop": 1, "two": 2, "three": 3, "nested": 4}[kind] > max_edges:
+            kind = "loop" if len(order) + 1 <= max_edges else None
+        if kind is None:
+            break
+        if kind == "loop" and (v, v) not in order:
+            order.append((v, v)); petals.append([v, v])
+        elif kind == "two" and pool:
+            x = pool.pop()
+            order += [(v, x), (x, v)]; petals.append([v, x, v])
+        elif kind == "three" and len(pool) >= 2:
+            x, y = pool.pop(), pool.pop()
+            order += [(v, x), (x, y), (y, v)]; petals.append([v, x, y, v])
+        elif kind == "nested" and len(pool) >= 2:
+            x, y = pool.pop(), pool.pop()
+            order += [(v, x), (x, v), (x, y), (y, x)]; petals.append([v, x, y, x, v])
+    zero = None
+    if petals and len(petals) > 1 and rng.random() < zero_petal_p:
+        zero = petals.pop()
+    routes = []
+    for _ in range(rng.randint(1, min(2, max_routes))):
+        r = [s, v]
+        for pt in petals:
+            for _ in range(rng.randint(0, max_rep)):
+                r += pt[1:]
+        r += back[2:]
+        routes.append(r)
+    # every (non-zero) petal is used by some route
+    used = set()
+    for r in routes:
+        used.update(zip(r[:-1], r[1:]))
+    for pt in petals:
+        if not set(zip(pt[:-1], pt[1:])) <= used:
+            r = [s, v] + pt[1:] + back[2:]
+            routes.append(r)
+            used.update(zip(r[:-1], r[1:]))
+    weights = [_w(rng, wmax, float_w) for _ in routes]
+    flow = _flow_from_routes(routes, weights)
+    for e in order:
+        flow.setdefault(e, 0)
+    nodes = []
+    for a, b in order:
+        for x in (a, b):
+            if x not in nodes:
+                nodes.append(x)
+    return {"kind": "digraph", "nodes": nodes, "edges": _edges_json(flow, order), "routes": routes, "weights": weights,
+            "zero_flow_edges": [list(e) for e in order if flow[e] == 0]}
+
+
+def digraph_cyclic(rng, max_nodes=5, max_edges=6, max_routes=3, wmax=5, max_rep=2, float_w=False, flower_p=0.3):
     """Digraph with cycles; flow = superposition of source-to-sink walks that wind cycles."""
+    if rng.random() < flower_p:
+        return digraph_flower(rng, max_routes=max_routes, wmax=wmax, max_rep=max_rep, float_w=float_w, max_edges=max_edges + 1)
     n = rng.randint(3, max(3, max_nodes))
     ns = names(rng, n)
     # backbone path(s)
